@@ -32,7 +32,8 @@ func Generate(seed uint64, opt Options) *Spec {
 	g := &gen{r: core.NewRand(seed), s: &Spec{}}
 	g.s.Pkg = []string{"main", "gram", "zparser", "main"}[g.pick(4)]
 	g.s.OnBounds = g.chance(40)
-	g.s.TwoFiles = g.chance(25)
+	g.s.TwoFiles = g.chance(30)
+	g.s.SplitLex = g.chance(50)
 	if opt.RichLexer {
 		g.richLexer()
 	} else {
@@ -222,8 +223,30 @@ func (g *gen) richLexer() {
 		nullableBudget = 1 + g.pick(2)
 	}
 	var allToks []string
+	loopMode := map[int]bool{}
 	for mi, m := range modes {
 		n := 2 + g.pick(4)
+		if g.chance(15) {
+			// "loop mode": every rule of the mode shares one loop, so that the
+			// DFA state reached after a full iteration is equivalent to (and
+			// merged with) the start state
+			loop := []string{"ab", "0", "xy", "é"}[g.pick(4)]
+			tail := []string{"c", ";", "\n", ">"}[g.pick(4)]
+			r1 := &LexRule{Kind: RTok, Name: newTok(), Expr: &LexExpr{Op: LSeq, Kids: []*LexExpr{
+				{Op: LSeq, Kids: []*LexExpr{{Op: LLit, Lit: loop}}, Card: CStar}, {Op: LLit, Lit: tail}}}}
+			m.Rules = append(m.Rules, r1)
+			allToks = append(allToks, r1.Name)
+			if g.chance(40) {
+				r2 := &LexRule{Kind: RTok, Name: newTok(), Expr: &LexExpr{Op: LSeq, Kids: []*LexExpr{{Op: LLit, Lit: loop}}, Card: CStar}}
+				m.Rules = append(m.Rules, r2)
+				allToks = append(allToks, r2.Name)
+			}
+			if mi > 0 && g.chance(50) {
+				r1.Actions = append(r1.Actions, LexAction{Kind: APop})
+			}
+			loopMode[mi] = true
+			continue
+		}
 		for i := 0; i < n; i++ {
 			allowNull := nullableBudget > 0 && g.chance(30)
 			switch g.pick(10) {
@@ -285,8 +308,8 @@ func (g *gen) richLexer() {
 	}
 	// Every extra mode gets a way out most of the time, and the default mode
 	// gets a whitespace rule most of the time.
-	for _, m := range modes[1:] {
-		if g.chance(75) {
+	for mi, m := range modes[1:] {
+		if g.chance(75) && !loopMode[mi+1] {
 			r := &LexRule{Kind: RTok, Name: newTok(), Expr: &LexExpr{Op: LLit, Lit: []string{">", ")", "}", "\""}[g.pick(4)]}, Actions: []LexAction{{Kind: APop}}}
 			m.Rules = append(m.Rules, r)
 			allToks = append(allToks, r.Name)
@@ -297,7 +320,7 @@ func (g *gen) richLexer() {
 		def.Rules = append(def.Rules, r)
 		allToks = append(allToks, r.Name)
 	}
-	if g.chance(70) {
+	if g.chance(70) && !loopMode[0] {
 		def.Rules = append(def.Rules, &LexRule{Kind: RFrag, Expr: &LexExpr{Op: LClass, Ranges: [][2]rune{{' ', ' '}, {'\n', '\n'}, {'\t', '\t'}}, Card: CPlus}, Actions: []LexAction{{Kind: ADiscard}}})
 	}
 	s.Modes = modes
@@ -635,4 +658,96 @@ func (g *gen) sprinkleErrors() {
 			}
 		}
 	}
+}
+
+// GenerateConflicting builds a specification whose grammar is (very likely)
+// not LALR(1): the classic ambiguities plus conflicts that involve the accept
+// action. lox must reject these with a diagnostic (C12); they are never used
+// as simulated parsers.
+func GenerateConflicting(seed uint64) *Spec {
+	g := &gen{r: core.NewRand(seed), s: &Spec{}}
+	g.s.Pkg = "main"
+	g.simpleLexer(true)
+	s := g.s
+	s.Family = "conflicting"
+	t := func(i int) *Term { return &Term{Kind: KTok, Name: g.toks[i%len(g.toks)]} }
+	switch g.pick(8) {
+	case 0: // start rule reachable from itself through a unit production: accept/reduce
+		s.Rules = []*Rule{{Name: "list", Prods: []*Prod{{Terms: []*Term{rref("list")}}, {Terms: []*Term{rref("list"), t(0)}}, {Terms: []*Term{t(0)}}}}}
+	case 1:
+		s.Rules = []*Rule{{Name: "s", Prods: []*Prod{{Terms: []*Term{rref("x")}}}}, {Name: "x", Prods: []*Prod{{Terms: []*Term{rref("s")}}, {Terms: []*Term{t(1)}}}}}
+	case 2: // ambiguous expression without precedence
+		s.Rules = []*Rule{{Name: "e", Prods: []*Prod{{Terms: []*Term{rref("e"), t(0), rref("e")}}, {Terms: []*Term{rref("e"), t(1), rref("e")}}, {Terms: []*Term{t(2)}}}}}
+	case 3: // dangling else
+		s.Rules = []*Rule{{Name: "st", Prods: []*Prod{{Terms: []*Term{t(0), rref("st")}}, {Terms: []*Term{t(0), rref("st"), t(1), rref("st")}}, {Terms: []*Term{t(2)}}}}}
+	case 4: // reduce/reduce
+		s.Rules = []*Rule{{Name: "s", Prods: []*Prod{{Terms: []*Term{rref("a")}}, {Terms: []*Term{rref("b")}}}}, {Name: "a", Prods: []*Prod{{Terms: []*Term{t(0)}}}}, {Name: "b", Prods: []*Prod{{Terms: []*Term{t(0)}}}}}
+	case 5: // nullable ambiguity
+		s.Rules = []*Rule{{Name: "s", Prods: []*Prod{{Terms: []*Term{rrefc("a", Star), rrefc("a", Star)}}}}, {Name: "a", Prods: []*Prod{{Terms: []*Term{t(0)}}, {}}}}
+	case 6: // start rule derives itself with @error around
+		s.Rules = []*Rule{{Name: "s", Prods: []*Prod{{Terms: []*Term{rref("s")}}, {Terms: []*Term{errT()}}, {Terms: []*Term{rref("s"), errT()}}, {Terms: []*Term{t(0)}}}}}
+	default:
+		g.famRandomSmall()
+		// force self references
+		for _, r := range s.Rules {
+			r.Prods = append(r.Prods, &Prod{Terms: []*Term{rref(s.Rules[0].Name)}})
+		}
+	}
+	// decorate with extra unrelated rules some of the time
+	if g.chance(40) {
+		s.Rules = append(s.Rules, &Rule{Name: "extra", Prods: []*Prod{{Terms: []*Term{t(3), rref(s.Rules[0].Name)}}}})
+		s.Rules[0].Prods = append(s.Rules[0].Prods, &Prod{Terms: []*Term{t(3), rref("extra")}})
+	}
+	for _, r := range s.Rules {
+		r.Ret = g.pick(3)
+	}
+	return s
+}
+
+// Shrink returns a copy of the specification with fewer productions and rules
+// (still well-formed: the start rule and everything it references stay).
+func Shrink(s *Spec, seed uint64) *Spec {
+	r := core.NewRand(seed)
+	c := &Spec{Pkg: s.Pkg, Modes: s.Modes, OnBounds: s.OnBounds, TwoFiles: s.TwoFiles, Family: s.Family + "/shrunk", LexFamily: s.LexFamily}
+	start := s.Rules[s.Start]
+	// keep only the first production of the start rule and of what it needs
+	need := map[string]bool{start.Name: true}
+	var order []string
+	order = append(order, start.Name)
+	for i := 0; i < len(order); i++ {
+		rule := s.RuleByName(order[i])
+		if rule == nil {
+			continue
+		}
+		keep := []*Prod{rule.Prods[0]}
+		if len(rule.Prods) > 2 && r.Intn(2) == 0 {
+			keep = append(keep, rule.Prods[1])
+		}
+		nr := &Rule{Name: rule.Name, Ret: rule.Ret, Prods: keep}
+		c.Rules = append(c.Rules, nr)
+		for _, p := range keep {
+			for _, t := range p.Terms {
+				names := []string{}
+				if t.Kind == KRule {
+					names = append(names, t.Name)
+				}
+				if t.Kind == KList {
+					if t.Elem.Kind == KRule {
+						names = append(names, t.Elem.Name)
+					}
+					if t.Sep.Kind == KRule {
+						names = append(names, t.Sep.Name)
+					}
+				}
+				for _, n := range names {
+					if !need[n] {
+						need[n] = true
+						order = append(order, n)
+					}
+				}
+			}
+		}
+	}
+	c.Start = 0
+	return c
 }
